@@ -469,7 +469,7 @@ def evaluate(ctx, cases, stream=None):
                          dict(case=case, stream='roundtrip', actual=x['toks']))
         results.append(True)
     if not reqs or not getattr(ctx, 'model_ok', True):
-        return
+        return results
     ans = ctx.driver.batch(reqs)
     for (ci, a, b), rq, r in zip(where, reqs, ans):
         case = cases[ci]
@@ -487,6 +487,7 @@ def evaluate(ctx, cases, stream=None):
         if not flat_same(flat_m, flat_b):
             ctx.fail(f'C01|{st}|{a["cls"]}|model', f'{a["cls"]}: written line {bt} differs from the model\'s {mt}', payload,
                      kind='correspondence')
+    return results
 
 
 def minimal_lines(case, item):
@@ -694,7 +695,7 @@ FIXED_CASES = [
     dict(lines=['TITL w2', 'CELL 0.71073 10 11 12 90 95 90', 'ZERR 4 0.001 0.001 0.001 0 0.01 0', 'LATT 1',
                 'SFAC C', 'UNIT 4', 'SIZE 0.1 0.2', 'ACTA NOHKL', 'FVAR 1.0',
                 'C1 1 0.123456 0.2 0.3 11.0 0.05', 'HKLF 4', 'END',
-                'Q1 1 0.123456 0.2345 0.3456 11.00000 0.05 1.234'], tags=['fixed']),
+                'Q1 1 0.123456 0.2345 0.3456 11.00000 0.05 1.234', 'Q2 1 0.1 0.2 0.3 11.00000 0.04 1.234'], tags=['fixed']),
 ]
 
 
@@ -716,11 +717,9 @@ def run(ctx):
     ok_forms = []
     form_cases = [form_file(rng, *f) for f in forms]
     evaluate(ctx, cases)
-    before = ctx.extra.get('skipped_parse_incomplete', 0)
-    for f, c in zip(forms, form_cases):
-        b = ctx.extra.get('skipped_parse_incomplete', 0)
-        evaluate(ctx, [c])
-        if ctx.extra.get('skipped_parse_incomplete', 0) == b and f[0] != 'HKLF':
+    res = evaluate(ctx, form_cases)
+    for f, r in zip(forms, res):
+        if r and f[0] != 'HKLF':
             ok_forms.append(f)
     ctx.extra['forms_total'] = len(forms)
     ctx.extra['forms_parsed_to_end'] = len(ok_forms) + sum(1 for f in forms if f[0] == 'HKLF')
